@@ -13,6 +13,19 @@ WEIGHTS = {"select": 12, "mutate": 12, "rename": 8, "summarize": 6, "join": 7, "
            "filter": 3, "arrange": 2, "group_by": 4, "ungroup": 1, "slice_head": 1, "collect": 0}
 
 
+def _count_noopt(tbl):
+    import polars as pl
+
+    import pydiverse.transform as pdt
+
+    try:
+        lf = tbl >> pdt.ungroup() >> pdt.summarize(num_rows=pdt.count()) >> pdt.export(pdt.Polars(lazy=True))
+        return lf.collect(optimizations=pl.QueryOptFlags.none()).item()
+    except BaseException as ex:  # noqa: BLE001
+        reraise_control(ex)
+        return None
+
+
 class C11(Check):
     ID = "C11"
     RULE = ("Hypothesis composite strategy: verb histories weighted towards reordering select, overwriting mutate/summarize, "
@@ -117,6 +130,10 @@ class C11(Check):
                         if m and int(m.group(2)) == len(cols) and int(m.group(1)) != df.height and (
                                 build.export_polars_noopt(tbl).height == int(m.group(1))):
                             out.count("engine_quirk:polars_optimizer")  # the optimised plan returns extra rows
+                        elif m and int(m.group(2)) == len(cols) and int(m.group(1)) != df.height and _count_noopt(tbl) == df.height:
+                            # repr counts the rows with `summarize(count())`; the optimised plan of that query is wrong
+                            # (projection pushdown through a select of aggregates), the unoptimised one agrees (4.15 b)
+                            out.count("engine_quirk:polars_optimizer")
                         elif not m or int(m.group(2)) != len(cols) or int(m.group(1)) != df.height:
                             out.fail("metadata", "polars:repr-shape", f"repr shape {m.group(0) if m else None} vs frame ({df.height}, {len(cols)})")
                     except BaseException as ex:  # noqa: BLE001
